@@ -414,6 +414,20 @@ def rule_recv(ctx):
     lp = [s for s in walk_local(u.node) if isinstance(s, ast.While)]
     ok = len(lp) == 1 and any(U.method_name(c) == '_handle_request' for c in U.calls(lp[0])) and norm(lp[0].test) == 'self._running'
     ctx.ob('C18.recv', f'{u.fq}:loop', ok, 'the receive loop handles one datagram per iteration and continues', u.node, u.module)
+    # a datagram ends the loop only if it is the interface's own wake-up: empty *and* sent from the bound address (unbind() sends it);
+    # an empty datagram from anybody else must not stop the receiver
+    bad = []
+    if len(lp) == 1:
+        for br in [x for x in ast.walk(lp[0]) if isinstance(x, (ast.Break, ast.Return))]:
+            if any(isinstance(p_, ast.ExceptHandler) for p_ in U.parent_chain(br)):
+                continue           # socket errors end the loop (closed socket)
+            tests = [norm(p_.test) for p_ in U.parent_chain(br) if isinstance(p_, ast.If)]
+            own = any(('getsockname' in t or 'bind_addr' in t or '_bind_addr' in t) and ('==' in t) for t in tests)
+            if not own:
+                bad.append(tests or ['unconditional'])
+    ctx.ob('C18.recv', f'{u.fq}:exit-own-datagram-only', len(lp) == 1 and not bad,
+           f'the receive loop is left under {bad}: a zero-length datagram from any sender ends the receiver thread (the port stays '
+           f'registered as open, every later datagram is dropped); the exit must also require the sender to be the bound address', u.node, u.module)
     tr = ctx.repo.func('sc3.base._oscinterface:OscTcpInterface._tcp_run')
     hs = [h for t_ in walk_local(tr.node) if isinstance(t_, ast.Try) for h in t_.handlers]
     names = set()
@@ -507,6 +521,8 @@ def run(ctx):
 
 
 MUTANTS = [
+    dict(rule='C18.recv', name='any empty datagram ends the udp receiver (seed C18-g)', file='sc3/base/_oscinterface.py',
+         old="                if not data and address == bind_addr:\n                    break", new="                if not data:\n                    break"),
     dict(rule='C18.effect', name='source matcher ignores the sender port', file='sc3/base/responders.py', count=2,
          old="and (self.addr.port is None or self.addr.port == addr.port)", new="and True"),
     dict(rule='C18.effect', name='wrap_func drops the receive-port test when a source is given', file='sc3/base/responders.py',
